@@ -11,7 +11,7 @@ from .xlref.values import outcome_matches
 
 def judge_book(ctx, prop, spec, targets, valuations, *, exact=False, err_exact=False, classify=None, nontrivial=None,
                name='wb', monitor='reference-model', strict_text=False, runtime_monitor=True, now=None, per_cell=False,
-               case_extra=None, on_result=None):
+               case_extra=None, on_result=None, empty_text_is_blank=False):
     """targets: [(sheet_idx, addr)] formula cells to judge; valuations: list of [(sheet_idx, addr, value)] override lists.
     classify(case, out, outs) -> known-finding tag | None ; nontrivial(case, outs) -> bool"""
     r = ctx.r
@@ -42,7 +42,8 @@ def judge_book(ctx, prop, spec, targets, valuations, *, exact=False, err_exact=F
             case = {'formula': formula, 'cell': addr, 'sheet': si, 'overrides': val}
             if case_extra:
                 case.update(case_extra)
-            ok = outcome_matches(out, outs, exact=exact, err_exact=(err_exact(case) if callable(err_exact) else err_exact))
+            ok = outcome_matches(out, outs, exact=exact, err_exact=(err_exact(case) if callable(err_exact) else err_exact),
+                                 empty_text_is_blank=empty_text_is_blank)
             if on_result:
                 on_result(case, out, outs, ok)
             if not ok:
